@@ -26,7 +26,12 @@ def rvalue(r, depth=0):
     return obj(*[(r.choice(["a", "b", "value", "id", "A"]), rvalue(r, depth + 1)) for _ in range(r.randrange(4))])
 
 
+ANSWERABLE_ONLY = [False]
+
+
 def rid(r):
+    if ANSWERABLE_ONLY[0]:
+        return r.choice([r.randrange(1, 50), r.choice(["x", "id1", "req-7", "A_b"]), r.randrange(100, 200)])
     k = r.randrange(12)
     if k < 5:
         return r.randrange(1, 50)
@@ -49,7 +54,7 @@ def with_id(r, members, idv="auto"):
     if idv is not None:
         key = "id" if r.random() < 0.9 else r.choice(["ID", "Id"])
         ms.insert(r.randrange(len(ms) + 1), (key, idv))
-        if r.random() < 0.04:
+        if r.random() < 0.04 and not ANSWERABLE_ONLY[0]:
             ms.append(("id", rid(r) or 1))
     return obj(*ms)
 
@@ -309,4 +314,9 @@ class Gen:
 
 
 def scenario(r, **kw):
-    return Gen(r, **kw).build()
+    # single=True profiles (small tables: refusals are derived from the error responses) need answerable request ids
+    ANSWERABLE_ONLY[0] = bool(kw.get("single"))
+    try:
+        return Gen(r, **kw).build()
+    finally:
+        ANSWERABLE_ONLY[0] = False
